@@ -113,9 +113,9 @@ func (c *c14Conn) SetWriteDeadline(time.Time) error {
 // ---- fixture: protocols and packet ids
 
 type c14IDs struct {
-	protocol                   proto.Protocol
-	chatPlay                   int // SystemChat, play
-	msgPlay, msgConfig         int // plugin.Message
+	protocol                    proto.Protocol
+	chatPlay                    int // SystemChat, play
+	msgPlay, msgConfig          int // plugin.Message
 	startUpdate, finishedUpdate int // StartUpdate in play, FinishedUpdate in config
 }
 
